@@ -10,7 +10,7 @@ UNITS = {
   'det_static': dict(wrapper='w_reduce.cpp', mode='seq', cxxflags=['-DVP_PART=static_partitioner', '-DVP_DETERMINISTIC']),
 }
 # reduce/scan bag harnesses: arrays up to 256 elements stay field-sensitive (range_vector's 128-byte pool must constant-fold)
-RCBMC = ['--unwind', '9', '--max-field-sensitivity-array-size', '256']
+RCBMC = ['--unwind', '13', '--max-field-sensitivity-array-size', '256']
 def sched(nelem, grain, nest, nestk, cancel=(0,), nestmasks=None, drains=None, pols=(0, 1), extra=None, stolen=(0, 255)):
   """task orders for the reduce/scan task-bag harnesses: see h_reduce.c"""
   leaves = -(-nelem // grain)
@@ -48,8 +48,8 @@ HARNESSES = [split_h(n, ['quick', 'thorough']) for n in (1, 2, 3, 4, 5, 6, 7, 8)
        desc='bag', bounds={}),
   dict(name='reduce_bag_auto', unit='red_auto', harness='h_reduce.c', cbmc=RCBMC,
        scenarios=sched(4, 1, 1, 1, nestmasks=(0, 1, 5), drains=(0, 3), extra={'MAXCONC': 2}) +
-                 sched(8, 1, 1, 1, nestmasks=(0, 1, 2, 3), drains=(0, 1), extra={'MAXCONC': 1}) +     # range pool + demand-driven offer_work
-                 sched(6, 1, 1, 1, nestmasks=(1, 3), drains=(0, 3), extra={'MAXCONC': 1}),
+                 sched(12, 1, 1, 1, nestmasks=(0, 1, 2, 3), drains=(0, 5), extra={'MAXCONC': 1}) +     # range pool + demand-driven offer_work
+                 sched(8, 1, 1, 1, nestmasks=(1, 3), drains=(0, 3), extra={'MAXCONC': 1}),
        desc='bag', bounds={}),
   dict(name='reduce_bag_static', unit='red_static', harness='h_reduce.c', cbmc=RCBMC,
        scenarios=sched(4, 1, 1, 1, nestmasks=(0, 1, 5), drains=(0, 3), extra={'MAXCONC': 2}),
